@@ -223,6 +223,26 @@ impl ZarrChainStorage {
     }
 }
 
+impl ZarrChainStorage {
+    /// Number of events recorded so far (since the last buffer reset) per event dimension.
+    ///
+    /// Not every field of an event is present on every event (some are optional), so the
+    /// count of a dimension is the largest count over its fields.
+    fn event_counts(&self) -> HashMap<String, u64> {
+        let mut counts: HashMap<String, u64> = HashMap::new();
+        for (field, dim) in &self.event_dim_of_stat {
+            let pushed = self
+                .stats_buffers
+                .get(field.as_str())
+                .map(|buf| buf.total_pushed())
+                .unwrap_or(0);
+            let entry = counts.entry(dim.clone()).or_insert(0);
+            *entry = (*entry).max(pushed);
+        }
+        counts
+    }
+}
+
 impl ChainStorage for ZarrChainStorage {
     type Finalized = HashMap<String, (u64, u64)>;
 
@@ -235,17 +255,7 @@ impl ChainStorage for ZarrChainStorage {
     ) -> Result<()> {
         let is_first_draw = self.last_sample_was_warmup && !info.tuning;
         if is_first_draw {
-            {
-                let mut seen = std::collections::HashSet::new();
-                for (field, dim) in &self.event_dim_of_stat {
-                    if seen.insert(dim.as_str()) {
-                        if let Some(buf) = self.stats_buffers.get(field.as_str()) {
-                            self.warmup_event_counts
-                                .insert(dim.clone(), buf.total_pushed());
-                        }
-                    }
-                }
-            }
+            self.warmup_event_counts = self.event_counts();
             for (key, buffer) in self.draw_buffers.iter_mut() {
                 if let Some(chunk) = buffer.reset() {
                     store_zarr_chunk(&self.arrays.warmup_draw_arrays[key], chunk, self.chain)?;
@@ -276,15 +286,12 @@ impl ChainStorage for ZarrChainStorage {
 
     /// Flush remaining samples and finalize storage
     fn finalize(self) -> Result<Self::Finalized> {
-        let mut seen = std::collections::HashSet::new();
-        let mut sample_counts: HashMap<String, u64> = HashMap::new();
-        for (field, dim) in &self.event_dim_of_stat {
-            if seen.insert(dim.as_str()) {
-                if let Some(buf) = self.stats_buffers.get(field.as_str()) {
-                    sample_counts.insert(dim.clone(), buf.total_pushed());
-                }
-            }
-        }
+        // A chain that never left warmup has recorded all its events into the warmup arrays.
+        let (warmup_counts, sample_counts) = if self.last_sample_was_warmup {
+            (self.event_counts(), HashMap::new())
+        } else {
+            (self.warmup_event_counts.clone(), self.event_counts())
+        };
 
         for (key, mut buffer) in self.draw_buffers.into_iter() {
             if let Some(chunk) = buffer.reset() {
@@ -313,11 +320,7 @@ impl ChainStorage for ZarrChainStorage {
             .collect::<std::collections::HashSet<_>>()
             .into_iter()
             .map(|dim| {
-                let w = self
-                    .warmup_event_counts
-                    .get(dim.as_str())
-                    .copied()
-                    .unwrap_or(0);
+                let w = warmup_counts.get(dim.as_str()).copied().unwrap_or(0);
                 let s = sample_counts.get(dim.as_str()).copied().unwrap_or(0);
                 (dim.clone(), (w, s))
             })
@@ -326,22 +329,21 @@ impl ChainStorage for ZarrChainStorage {
     }
 
     fn inspect(&self) -> Result<Option<Self::Finalized>> {
-        let mut seen = std::collections::HashSet::new();
+        let current = self.event_counts();
         let mut counts = HashMap::new();
-        for (field, dim) in &self.event_dim_of_stat {
-            if seen.insert(dim.as_str()) {
-                let s = self
-                    .stats_buffers
-                    .get(field.as_str())
-                    .map(|b| b.total_pushed())
-                    .unwrap_or(0);
+        for dim in self.event_dim_of_stat.values() {
+            let cur = current.get(dim.as_str()).copied().unwrap_or(0);
+            let (w, s) = if self.last_sample_was_warmup {
+                (cur, 0)
+            } else {
                 let w = self
                     .warmup_event_counts
                     .get(dim.as_str())
                     .copied()
                     .unwrap_or(0);
-                counts.insert(dim.clone(), (w, s));
-            }
+                (w, cur)
+            };
+            counts.insert(dim.clone(), (w, s));
         }
         Ok(Some(counts))
     }
